@@ -215,20 +215,30 @@ ADD3 = {
     "C04": "calc_h is interpreted for resumed runs too; a rejected step moves the clock back only if it was advanced for that attempt (CFG path or "
            "typestate attribute set only by the advance helper) and re-advances before the retry; restore/acceptance of ImplicitIter.step decided on "
            "truth tables of the enclosing conditions.",
-    "C05": "Accumulating initialisers (v_str_add) start from cleared arrays on every initialisation (whole-array clear on every path of TDS.init to System.init).",
+    "C05": "Accumulating initialisers (v_str_add) start from cleared arrays on every initialisation (whole-array clear on every path of TDS.init to System.init); "
+           "every bus injection of a model with a connection status vanishes identically for u = 0 (symbolic, internal algebraic variables eliminated).",
     "C06": "One do_switch call hands a model to switch_action at most once; the schedule dict is created where it is filled, in sorted order; the event "
-           "pointer is re-assigned after every rebuild of the schedule before it is read.",
+           "pointer is re-assigned after every rebuild of the schedule before it is read; only System.store_switch_times writes the schedule.",
     "C11": "Model.alter / GroupBase.alter / ModelData.as_dict evaluated over the kinds of altered / exported object with symbolic value and coefficient.",
     "C13": "NumParam.add corrections are independent of the numeric representation (int/float/NumPy scalar); system-level quantities set by the case "
-           "readers must be carried by the native formats (open finding: xlsx/json do not).",
-    "C14": "init()/init_resume() dispatch decided on the truth table of the enclosing conditions.",
+           "readers must be carried by the native formats (open finding: xlsx/json do not); the star branches of a three-winding transformer read their own winding record.",
+    "C14": "init()/init_resume() dispatch decided on the truth table of the enclosing conditions; save_ss writes no array content (effect analysis); re-pointing of "
+           "variable views skips models without addresses (evaluated).",
+    "C08": "EIG._store_stats, find_zero_states and _reorder evaluated with NumPy on stand-ins: the counts partition complex eigenvalues by the real part, "
+           "the zero-state partition is re-read from dae.Tf on every call, the state names follow the rows/columns of the reordered matrix for every placement "
+           "of 1..3 zero states among 6; every sweep point passes a call that must-reach System.j_update; wherever `mu` is replaced the derived statistics "
+           "and participation factors are recomputed; every attribute calc_As assigns is assigned on every path.",
     "C16": "CCS triplet mapping and the linsolve switch decided by evaluation / truth table instead of statement patterns.",
     "C17": "run(cli=True) with its multi-case runners evaluated over outcome classes (single, pool, worker processes in batches, file not found): exit "
            "code non-zero iff a case failed; every success flag the property lists (busted, test_ok) is consulted with a refusing branch on every path to "
-           "the dependent work of TDS.run and EIG; the operand of the stability criterion is established by TDS.init whenever the criterion is enabled.",
+           "the dependent work of TDS.run and EIG; the operand of the stability criterion is established by TDS.init whenever the criterion is enabled; "
+           "library-solver failure exceptions (contract table) are turned into converged = False; the Newton increment already applied to the state is "
+           "NaN-tested before the success verdict.",
     "C19": "GroupBase.get_next_idx, DeviceFinder.find_or_add and ModelData.add evaluated over registries with collisions / rejecting parameters: generated "
-           "idx never registered, loop terminates, explicit idx kept iff free, helper device found or added once, rejected device leaves no trace.",
-    "C20": "Constants assigned by the program to an enumerated configuration field are declared alternatives of the declared type.",
+           "idx never registered, loop terminates, explicit idx kept iff free, helper device found or added once, rejected device leaves no trace; an "
+           "unregistered idx raises whatever allow_none is; Group.get returns the values the devices hold for any mixture of numbers and strings.",
+    "C20": "Constants assigned by the program to an enumerated configuration field are declared alternatives of the declared type; the per-element work of an "
+           "apply-to-all loop has not slipped out of the loop (a call after the loop that uses its loop variable), applied to the check of every model class.",
 }
 
 
